@@ -25,6 +25,7 @@ def check_c15(case, stats=None):
     denied_pay = {}      # payload id -> reason: sends that must not be delivered
     quit_refused = []
     looping = False
+    loop_known = True
     live_by_name = {}    # name -> slot (registered, not zombie)
     pend = []
 
@@ -43,6 +44,9 @@ def check_c15(case, stats=None):
             ctxs = dict(r.ctx)
             if r.ctx.get("loop") in ("0", "1"):
                 looping = r.ctx["loop"] == "1"
+                loop_known = True
+            else:
+                loop_known = False      # (inside a deny-ctx callback the context cannot be asked: the loop may have stopped meanwhile)
         elif r.k == "B":
             cbs.append(r)
         elif r.k == "E":
@@ -54,7 +58,7 @@ def check_c15(case, stats=None):
             r.fields["_st"] = dict(st)
             r.fields["_srclen"] = dict(srclen)
             r.fields["_ctx"] = dict(ctxs)
-            r.fields["_loop"] = looping
+            r.fields["_loop"] = looping and loop_known
             r.fields["_live"] = dict(live_by_name)
             r.fields["_inner"] = cbs[-1].slot if cbs else None
         elif r.k == "<":
